@@ -70,12 +70,19 @@ Definition may_update (table : string) (sh : shape) (hooks : bool) (selects omit
 Definition must_update (table : string) (sh : shape) (hooks : bool) (selects omits : list sitem)
            (p : payload) (f : field) : bool :=
   may_update table sh hooks selects omits p f && negb (f_pk f).
-(* where the value comes from: a tracked update-time field is refreshed (NowFunc) by every
-   hook-running update unless the payload gives it (map key), and never by the column updates *)
-Definition update_src_ok (sh : shape) (hooks : bool) (p : payload) (f : field) (k : src) : bool :=
+(* where the value comes from: a map value that is part of the write set is written as given; a
+   tracked update-time field is otherwise refreshed (NowFunc) by every hook-running update, and
+   never by the column updates; everything else carries the payload's value *)
+Definition update_src_ok (table : string) (sh : shape) (hooks : bool) (selects : list sitem)
+           (p : payload) (f : field) (k : src) : bool :=
+  let refreshed :=
+    match sh with
+    | ShMap => negb (payload_part table sh selects p f) && hooks && tracked_update f
+    | _ => hooks && tracked_update f
+    end in
   match k with
-  | KNow => hooks && tracked_update f && negb (match sh with ShMap => key_given p f | _ => false end)
-  | KPay => negb (hooks && tracked_update f) || match sh with ShMap => key_given p f | _ => false end
+  | KNow => refreshed
+  | KPay => negb refreshed
   | KOther => false
   end.
 
@@ -104,7 +111,7 @@ Definition spec_update (s : schema) (table : string) (sh : shape) (hooks : bool)
   forallb (fun x =>
              mem_z (c_row x) rows
              && match field_of s (c_col x) with
-                | Some f => may_update table sh hooks selects omits p f && update_src_ok sh hooks p f (c_src x)
+                | Some f => may_update table sh hooks selects omits p f && update_src_ok table sh hooks selects p f (c_src x)
                 | None => false
                 end) cells
   && forallb (fun r => forallb (fun f => negb (must_update table sh hooks selects omits p f)
